@@ -280,12 +280,24 @@ def check_property(pid, tier, seed):
 
     outdir = os.path.join(BUILD, "run", pid)
     search_tier = tier
-    if not proofs_ok and tier == "quick":
-        # a proof obligation broke: look harder for a concrete failing input
-        search_tier = "thorough"
-        log("%s: proof obligations do not check; searching at thorough budget" % pid)
     stats = run_harness(pid, search_tier, seed, outdir)
     ncases, mism, refdis = compare_with_model(outdir)
+    if not proofs_ok and tier == "quick":
+        # a proof obligation broke: when the quick search shows no failing input, look harder for one
+        hot = [f for f in (stats.get("findings") or []) if f["kind"] not in ("infra",)]
+        if not hot and not mism:
+            search_tier = "thorough"
+            log("%s: proof obligations do not check and the quick search found nothing; searching at thorough budget" % pid)
+            quick_res = (stats, ncases, mism, refdis)
+            try:
+                stats = run_harness(pid, search_tier, seed, outdir, timeout=900)
+                ncases, mism, refdis = compare_with_model(outdir)
+            except Infra as e:
+                # the deeper search did not finish inside its budget: the verdict rests on the quick search
+                log("%s: thorough search abandoned (%s)" % (pid, str(e)[:200]))
+                search_tier = "quick (the thorough search exceeded its 900 s budget)"
+                stats, ncases, mism, refdis = quick_res
+                run_harness(pid, "quick", seed, outdir)
     # when the table facts that tie Spec's CaseFold (regenerated from the repository's tables) to the toolchain's
     # folding orbits no longer check, Spec is no longer the authority on fold-equality: the reference over the
     # toolchain's orbits is, and only a case on which the CODE departs from it is a failing input
